@@ -1,6 +1,7 @@
 (* stdin: one pivot search per line:  usepr oldrow diagind thr k  row_1 mag_1 ... row_k mag_k
    rows are decimal (may be -1), magnitudes and thr are non-negative integers in BINARY (scaled doubles).
-   stdout: "ptr row usepr singular" per line *)
+   stdout: "ptr row usepr singular" per line;
+   or "INFO i i | i ..." (InfoModel.gstrf_info on the per-worker info sequences) -> "INFO r" *)
 open Pivot_model
 let rec pos_of_int (i : int) : positive =
   if i = 1 then XH else if i land 1 = 0 then XO (pos_of_int (i lsr 1)) else XI (pos_of_int (i lsr 1))
@@ -21,6 +22,13 @@ let () =
   try while true do
     let line = input_line stdin in
     let tok = Array.of_list (List.filter (fun s -> s <> "") (String.split_on_char ' ' line)) in
+    if Array.length tok >= 1 && tok.(0) = "INFO" then begin
+      (* INFO i i i | i i | ...   : per worker, the infos (0 or column+1) of the pivot searches it made, in its own order *)
+      let parts = ref [] and cur = ref [] in
+      Array.iteri (fun k t -> if k > 0 then (if t = "|" then (parts := List.rev !cur :: !parts; cur := []) else cur := z_of_int (int_of_string t) :: !cur)) tok;
+      parts := List.rev !cur :: !parts;
+      Printf.printf "INFO %d\n" (int_of_z (gstrf_info (List.rev !parts)))
+    end else
     if Array.length tok >= 5 then begin
       let usepr = tok.(0) = "1" in
       let oldrow = z_of_int (int_of_string tok.(1)) and diagind = z_of_int (int_of_string tok.(2)) in
